@@ -15,6 +15,7 @@ func init() { register("C17", checkC17) }
 func checkC17(c *Check) {
 	p := c.P
 	c.updateFraming("C17.1 framing", "C17.1 guards-before-callbacks")
+	c.specConstants("C17.2 spec-constants", "NOTIF_CODE_UPDATE_MESSAGE_ERR", "NOTIF_SUBCODE_MALFORMED_ATTR_LIST", "NOTIF_SUBCODE_UNRECOGNIZED_WELL_KNOWN_ATTR", "NOTIF_SUBCODE_MISSING_WELL_KNOWN_ATTR", "NOTIF_SUBCODE_ATTR_FLAGS_ERR", "NOTIF_SUBCODE_ATTR_LEN_ERR", "NOTIF_SUBCODE_INVALID_ORIGIN_ATTR", "NOTIF_SUBCODE_INVALID_NEXT_HOP_ATTR", "NOTIF_SUBCODE_OPTIONAL_ATTR_ERR", "NOTIF_SUBCODE_INVALID_NETWORK_FIELD", "NOTIF_SUBCODE_MALFORMED_AS_PATH", "PATH_ATTR_ORIGIN", "PATH_ATTR_AS_PATH", "PATH_ATTR_NEXT_HOP", "PATH_ATTR_MED", "PATH_ATTR_LOCAL_PREF", "PATH_ATTR_ATOMIC_AGGREGATE", "PATH_ATTR_AGGREGATOR", "PATH_ATTR_COMMUNITY", "PATH_ATTR_ORIGINATOR_ID", "PATH_ATTR_CLUSTER_LIST", "PATH_ATTR_MP_REACH_NLRI", "PATH_ATTR_MP_UNREACH_NLRI", "PATH_ATTR_LARGE_COMMUNITY")
 	c.attrIteration("C17.1 attribute-iteration", "C17.1 duplicates-and-overruns")
 	c.errorAccumulation("C17.2 error-accumulation")
 	c.mandatoryAttrs("C17.3 mandatory-attributes")
